@@ -31,6 +31,10 @@ pub struct Case {
     pub foreign: Vec<Foreign>,
     /// selector bits queried after every run: 1 plain, 2 r_current, 4 compressed, 8 custom current
     pub selector: u8,
+    /// before every later run: next to every compressed file X.gz of the family that exists then,
+    /// a foreign sub-directory X (the name the file had before it was compressed) appears
+    #[serde(default)]
+    pub gz_twin_dirs: bool,
 }
 
 pub struct P;
@@ -247,6 +251,20 @@ fn one_run(case: &Case, with_foreign: bool, sc: &Scratch, tag: &str) -> Result<(
     let custom = cfg.nam().and_then(Nam::current_token);
     let mut listed = Vec::new();
     let res = execute(&case.mr, &dir, Some(&err), None, true, &mut |ev| {
+        if let Event::RunStart { run, snap } = &ev {
+            if *run >= 1 && with_foreign && case.gz_twin_dirs {
+                for e in snap.iter() {
+                    if e.kind == EKind::File && classify(cfg, &e.name).is_some() {
+                        if let Some(plain) = e.name.strip_suffix(".gz") {
+                            let p = dir.join(plain);
+                            if !p.exists() && std::fs::create_dir(&p).is_ok() {
+                                let _ = std::fs::write(p.join("inner.txt"), b"inner");
+                            }
+                        }
+                    }
+                }
+            }
+        }
         if let Event::AfterOp { op, sess, .. } = ev {
             if matches!(op, Op::Rotate) {
                 if let Ok(l) = sess.existing(&selector(case.selector, custom.clone())) {
@@ -305,14 +323,14 @@ impl Property for P {
                 let dirs = prop::bool::weighted(0.25).prop_flat_map(move |with| {
                     if with && nfd > 0 { proptest::sample::subsequence(fam_dirs.clone(), 1..=nfd).boxed() } else { Just(Vec::new()).boxed() }
                 });
-                (Just(cfg), Just(t0), runs, foreign, 0u8..16, dirs)
+                (Just(cfg), Just(t0), runs, foreign, 0u8..16, dirs, prop::bool::weighted(0.3))
             })
-            .prop_map(|(cfg, t0, runs, (names, kinds), selector, dirs)| {
+            .prop_map(|(cfg, t0, runs, (names, kinds), selector, dirs, gz_twin_dirs)| {
                 let mut foreign: Vec<Foreign> = names.into_iter().zip(kinds).map(|(name, kind)| Foreign { name, kind }).collect();
                 for d in dirs {
                     foreign.push(Foreign { name: d, kind: FKind::Dir });
                 }
-                Case { mr: MrCase { tz: crate::vtime::tz_name(), cfg, t0, runs }, foreign, selector }
+                Case { mr: MrCase { tz: crate::vtime::tz_name(), cfg, t0, runs }, foreign, selector, gz_twin_dirs }
             })
             .boxed()
     }
